@@ -240,6 +240,11 @@ class Param():
                 self.group_update_callbacks[element.group].call(complete_name, value_s)
             self.all_update_callback.call(complete_name, value_s)
 
+            if self.toc.get_element_by_id(var_id) is not element:
+                # The link has been closed from an update callback and the table is gone:
+                # an empty table must not be taken for "all parameters updated"
+                return
+
             # Once all the parameters are updated call the
             # callback for "everything updated"
             if self._check_if_all_updated() and not self.is_updated:
